@@ -219,6 +219,7 @@ var edgeCorpus = []string{
 	`(for [(def i 0) (< i 2) (set i (+ i 1))] (and (letseq [w 1] (cond (== i 0) (continue) w)) 3))`,
 	`(defn r0 [] (return)) (+ 5 (r0))`, `(defn sq0 [] (set %y 10)) (+ 1 (sq0))`, `(def ar0 [4 5 6]) (defn ai0 [] (set (arrayidx ar0 [1]) 99)) (+ 1 (ai0))`,
 	`(for [(def k 0) (< k 3) (set k (+ k 1))] (package "pkx" (def A (cond (== k 1) (break) 7))))`,
+	`([] int64)`, `(def a5 5) (a5)`, `((fn [] 3))`, `(int64 2.7)`, `(def n9 (int 9.99)) n9`, `(defn whole [x] (int64 x)) (whole 3.5) (whole 1.5)`, `(let [f 6.5] (uint8 f))`,
 	`(hash a:(begin) b:2)`, `[1 (begin) 2]`, `[(newScope)]`, `(len [(begin)])`,
 }
 
@@ -319,6 +320,9 @@ func main() {
 
 	// ---- (vi) break/continue in every inline-compiled position ----
 	s.jumpMatrix(rng, args.Tier == "thorough")
+
+	// ---- (vii) registered types as callees x argument kinds x positions ----
+	s.typeMatrix(rng, args.Tier == "thorough")
 
 	// ---- (ii)+(iii) generated programs in long histories ----
 	nhist, perHist := 12, 60
